@@ -147,6 +147,37 @@ fn matq(m: &Mat) -> AffQ {
     AffQ::new(m.q(), vec![Q::zero(); m.nrows()], m.cols)
 }
 
+fn high_dim_membership(c: &Case, ctx: &mut Ctx) -> CaseResult {
+    let d = 200 + (c.axis as usize / 48) % 1001;
+    let r = if c.radius >= 0.25 { c.radius } else { 1.0 };
+    let eps = 2f64.powi(-(13 + (c.axis as i32 / 7) % 6));
+    let j = pick(c.axis.wrapping_mul(40503), d);
+    let shift = 0.5;
+    ctx.class("high_dimensional_membership");
+    let cube = must("hypercube", || Polytope::hypercube(d, r))?;
+    let tvec = ndarray::Array1::from_elem(d, shift);
+    let moved = must("translate", || cube.translate(&tvec))?;
+    let rect = must("hyperrectangle", || Polytope::hyperrectangle(&vec![(-r, r); d]))?;
+    let axb = must("axis_bounds", || Polytope::axis_bounds(d, j, -r, r))?;
+    let both = must("intersection_n", || Polytope::intersection_n(d, &[cube.clone(), rect.clone()]))?;
+    for (what, delta, expect) in [("outside by eps", eps, false), ("inside by eps", -eps, true), ("on the face", 0.0, true)] {
+        let mut x = ndarray::Array1::<f64>::zeros(d);
+        x[j] = r + delta;
+        let mut xs = x.clone();
+        xs += shift;
+        for (name, poly, pt) in [("hypercube", &cube, &x), ("hypercube.translate", &moved, &xs), ("hyperrectangle", &rect, &x), ("axis_bounds", &axb, &x), ("intersection_n", &both, &x)] {
+            let got = must("contains", || poly.contains(pt))?;
+            if got != expect {
+                return Err(Failure::new(format!(
+                    "{name} in dimension {d} (half-width {r}): contains() = {got} for the point with component {j} = face {:+e} ({what}); the definition says {expect}",
+                    delta
+                )));
+            }
+        }
+    }
+    Ok(())
+}
+
 pub fn run_case(c: &Case, ctx: &mut Ctx) -> CaseResult {
     let n = c.p.dim;
     let k = c.pre.indim();
@@ -279,6 +310,12 @@ pub fn run_case(c: &Case, ctx: &mut Ctx) -> CaseResult {
         }
         let pre = AffQ::new(rt, vec![Q::zero(); n], n).apply(&xq);
         judge("P.rotate(R) at an arbitrary point", guard(|| rot.contains(&arr(x))), classify(&min_slack(&pq, &pre)), &xq, &mut t)?;
+    }
+
+    // data-sized dimensions (1 case in 48): membership in boxes of dimension 200..1200, at points that are outside /
+    // inside by 2^-13 .. 2^-18 (4e-6 at least: outside the dead zone) in one coordinate, and exactly on a face
+    if c.axis % 48 == 0 {
+        high_dim_membership(c, ctx)?;
     }
 
     // constructors by definition
